@@ -13,8 +13,8 @@ Typing discipline (what makes the programs error-free):
   * arrays have a fixed shape class: keys 1, 2, "i" hold integers, "s" holds a string, "n" and 0 hold
     nested arrays of the same class or nothing, 9 and "e" hold anything (and are the only keys that get
     NIL assigned = erased);
-  * divisors are literals other than 0/-1 or `(e & 1023) + 1`-shaped, shift counts are literals 0..63 or
-    `e & 63`;
+  * divisors are non-zero literals or `(e & 1023) + 2`-shaped (never zero); shift counts are arbitrary (the
+    engine masks them to six bits);
   * loops run on dedicated counters (updated first thing in a `while`/`do` body so that `continue`
     cannot skip the update), `goto` goes forward or backward under a counter, the call graph is a DAG
     plus bounded self-recursion, threads started with `thread` never reach a `waitthread`;
@@ -298,7 +298,9 @@ class Gen:
             return ("bin", op, self.int_expr(env, d - 1), self.divisor(env, d - 1))
         if c < 0.52:
             op = r.choice(["shl", "shr"])
-            amt = ("int", r.randint(0, 63)) if self.chance(0.6) else ("bin", "band", self.int_expr(env, d - 1), ("int", 63))
+            c2 = r.random()
+            amt = ("int", r.randint(0, 63)) if c2 < 0.5 else ("bin", "band", self.int_expr(env, d - 1), ("int", 63)) if c2 < 0.8 \
+                else self.int_expr(env, d - 1)       # any count: the engine masks it to six bits
             return ("bin", op, self.int_expr(env, d - 1), amt)
         if c < 0.64:
             return self.bool_expr(env, d)
@@ -315,10 +317,10 @@ class Gen:
     def divisor(self, env, d):
         r = self.rng
         if self.chance(0.5):
-            v = r.choice([1, 2, 3, 7, 255, 256, 65536, (1 << 32) + 1, (1 << 63) - 1])
+            v = r.choice([1, 1, 2, 3, 7, 255, 256, 65536, (1 << 32) + 1, (1 << 63) - 1])
             e = ("int", v)
-            if self.chance(0.3) and v != 1:
-                e = ("neg", e)
+            if self.chance(0.3):
+                e = ("neg", e)          # -1 included: x / -1 wraps, x % -1 is 0
             return e
         pos = ("bin", "add", ("bin", "band", self.int_expr(env, d), ("int", 1023)), ("int", 2))
         return ("neg", pos) if self.chance(0.3) else pos
@@ -334,6 +336,20 @@ class Gen:
             return (r.choice(["land", "lor"]), self.any_expr(env, d - 1), self.any_expr(env, d - 1))
         if c < 0.85:
             return ("not", self.any_expr(env, d - 1))
+        if c < 0.92 and "strings" in self.f:
+            # a number against its own decimal text (equal), against a near miss, as literal and as computed string
+            v = r.choice([0, 1, 7, 12, 255, 256, 65536, 4294967296])
+            neg = self.chance(0.3)
+            num = ("neg", ("int", v)) if neg and v else ("int", v)
+            txt = ("-" if neg and v else "") + str(v)
+            if self.chance(0.3):
+                txt = r.choice(["0" + txt, txt + " ", txt + "0", "+" + txt])
+            sv = ("str", txt) if self.chance(0.6) else ("bin", "add", ("str", ""), ("str", txt))
+            if self.chance(0.3) and env["I"]:
+                x = r.choice(env["I"])
+                num, sv = x, ("bin", "add", ("str", ""), x)
+            pair = (num, sv) if self.chance(0.5) else (sv, num)
+            return ("bin", r.choice(["eq", "ne"]), pair[0], pair[1])
         if "strings" in self.f:
             return ("bin", r.choice(["eq", "ne"]), self.str_expr(env, d - 1), self.str_expr(env, d - 1))
         return ("bin", r.choice(CMP), self.int_expr(env, d - 1), self.int_expr(env, d - 1))
@@ -807,7 +823,11 @@ class Gen:
             g = ("var", "local", self.fresh("g"))
             pos = self.label_pos(body)
             tail = self.stmts(env, r.randint(1, 2), 1)
-            body = body[:pos] + [("assign", ("var", g[1], g[2]), ("int", 0)), ("label", lab, [])] + body[pos:] + tail + [
+            # a label with parameters in the middle of a thread: running over it binds the thread's next unread
+            # arguments (NIL when none are left); reached by `goto` it receives the label name itself
+            lps = [("local", self.fresh("x")) for _ in range(r.randint(0, 2))] if self.chance(0.5) else []
+            show = [("print", True, [("str", "at " + lab)] + [("var", sc, n) for sc, n in lps])] if lps else []
+            body = body[:pos] + [("assign", ("var", g[1], g[2]), ("int", 0)), ("label", lab, lps)] + show + body[pos:] + tail + [
                 ("incr", ("var", g[1], g[2])),
                 ("ite", ("bin", "lt", g, ("int", r.randint(1, 3))), [("goto", lab)], [])]
             self.cost *= 3
@@ -815,7 +835,9 @@ class Gen:
             lab = self.fresh("L")
             pos = self.label_pos(body)
             skipped = self.stmts(env, r.randint(1, 2), 1)
-            body = body[:pos] + [("ite", self.bool_expr(env, 1), [("goto", lab)], [])] + skipped + [("label", lab, [])] + body[pos:]
+            lps = [("local", self.fresh("x")) for _ in range(r.randint(1, 2))] if self.chance(0.4) else []
+            show = [("print", True, [("str", "at " + lab)] + [("var", sc, n) for sc, n in lps])] if lps else []
+            body = body[:pos] + [("ite", self.bool_expr(env, 1), [("goto", lab)], [])] + skipped + [("label", lab, lps)] + show + body[pos:]
         end_e = None
         if th.ret == "I":
             end_e = self.int_expr(env, 2)
